@@ -6,10 +6,31 @@ from vf.core import Ctx
 
 
 def run(ctx: Ctx) -> None:
-    run_family(ctx, 'C12', 'c12', 250, 4000)
+    from props import queuemodel as qm
+    from props.resp_run import strict_sighting_pass
+    # binding 1: the implementation-shaped model of the two answer queues against the timing contract, exhaustively
+    info = qm.check_models(ctx)
+    ctx.log('Queue model: %d distinct states, contract invariants hold; defect configuration violates %s; strict sighting '
+            'configuration reaches the schedule of finding D17' % (info['model_distinct'], info['defect_config_violates']))
+    # binding 2: behaviours of the model replayed into the real responder
+    mscs, predicted = qm.model_scenarios(ctx, 'c12')
+    scenarios, traces = run_family(ctx, 'C12', 'c12', 250, 4000, mscs)
+    d = qm.drift(traces, predicted)
+    for x in d[:5]:
+        print('MODEL-DRIFT property=C12 scenario=%s real multicast answers %s, model predicts %s (evidence, not a verdict: the '
+              'exhaustively checked model Queue.tla no longer describes the answer queues)' % (x['scenario'], x['real'], x['model']))
+    ctx.coverage.update(info)
+    ctx.coverage.update({'model_behaviours_replayed': len(mscs), 'model_drift': len(d), 'model_drift_samples': d[:3],
+                         'model_constants': 'exhaustive: 2 records, jitter {20,120} ms, 6-7 environment instants (queries for any subset '
+                                            '/ unregister / nothing); replay: every history of 3 (quick) / 4 (thorough) instants plus '
+                                            'random walks over 14 instants x 3 records x 4 jitter values'})
+    ctx.log('model behaviours replayed into the real responder: %d, drift: %d' % (len(mscs), len(d)))
+    strict_sighting_pass(ctx, scenarios, traces)
 
 
 def replay(ctx: Ctx, path: str) -> None:
     import json
     sc = json.load(open(path))['replay']['scenario']
-    run_family(ctx, 'C12', 'c12', 0, 0, [sc])
+    from props.resp_run import strict_sighting_pass
+    scenarios, traces = run_family(ctx, 'C12', 'c12', 0, 0, [sc])
+    strict_sighting_pass(ctx, scenarios, traces)
